@@ -53,6 +53,7 @@ type C09Case struct {
 	Sizes    []int   `json:"sizes"` // initial number of sectors per contract
 	Ops      []C09Op `json:"ops"`
 	ReadBack []int   `json:"read_back,omitempty"` // positions (mod) to read back at the end
+	ReadAll  bool    `json:"read_all,omitempty"`  // read back every listed sector of every live contract at the end
 	Leaf     int     `json:"leaf,omitempty"`
 }
 
@@ -62,6 +63,37 @@ type c09 struct {
 	*session
 	acctFunded bool
 	nt         bool
+	// sectors the renter uploaded through RPCWriteSector and the host had
+	// every byte of (also when the renter never read the answer): root
+	// computed by the harness with core, plus the bytes sent
+	uploads  []upload
+	writeSeq int
+}
+
+type upload struct {
+	root types.Hash256
+	data []byte
+}
+
+// rootFor maps a small int of a case to a sector root: 1000+i is the i-th
+// sector uploaded so far in this case (if any), otherwise see rootOf.
+func (x *c09) rootFor(k int) (types.Hash256, bool) {
+	if k >= 1000 && len(x.uploads) > 0 {
+		return x.uploads[(k-1000)%len(x.uploads)].root, true
+	}
+	if k >= 1000 {
+		k %= rhpx.PoolSize
+	}
+	return rootOf(k), known(k)
+}
+
+func (x *c09) uploadOf(root types.Hash256) *upload {
+	for i := range x.uploads {
+		if x.uploads[i].root == root {
+			return &x.uploads[i]
+		}
+	}
+	return nil
 }
 
 func newC09(sizes []int, cs *kit.CaseStats) (*c09, error) {
@@ -137,9 +169,10 @@ func (x *c09) check(what string, before *rhpx.Snapshot) error {
 func (x *c09) appendClient(m *mcontract, ks []int) error {
 	var roots, knownRoots []types.Hash256
 	for _, k := range ks {
-		roots = append(roots, rootOf(k))
-		if known(k) {
-			knownRoots = append(knownRoots, rootOf(k))
+		r, ok := x.rootFor(k)
+		roots = append(roots, r)
+		if ok {
+			knownRoots = append(knownRoots, r)
 		}
 	}
 	what := fmt.Sprintf("append %v via client", ks)
@@ -314,10 +347,20 @@ func (x *c09) readBack(m *mcontract, positions []int, leaf int) error {
 	for _, p := range positions {
 		root := m.Roots[mod(p, len(m.Roots))]
 		pi := rhpx.PoolIndex(root)
-		if pi < 0 {
-			return fmt.Errorf("harness: model holds a root that is not a pool sector")
+		up := x.uploadOf(root)
+		if pi < 0 && up == nil {
+			return fmt.Errorf("harness: model holds a root that is neither a pool sector nor an upload")
 		}
 		l := uint64(mod(leaf+p*977, proto4.LeavesPerSector))
+		var want [proto4.LeafSize]byte
+		if up != nil {
+			// uploaded sector: a leaf inside the bytes sent (the rest is padding)
+			l = uint64(mod(leaf+p, len(up.data)/proto4.LeafSize))
+			copy(want[:], up.data[l*proto4.LeafSize:])
+			x.cs.Class("read-back-uploaded-sector")
+		} else {
+			want = rhpx.SectorLeaf(pi, l)
+		}
 		var buf bytes.Buffer
 		_, err := rhp4.RPCReadSector(context.Background(), x.H.Client, x.Prices, token, &buf, root, l*proto4.LeafSize, proto4.LeafSize)
 		if stop, e := infra(x.cs, x.idle(err)); stop {
@@ -326,9 +369,8 @@ func (x *c09) readBack(m *mcontract, positions []int, leaf int) error {
 		if err != nil {
 			return fmt.Errorf("listed sector %v (position %d) cannot be read back: %v", root, mod(p, len(m.Roots)), err)
 		}
-		want := rhpx.SectorLeaf(pi, l)
 		if !bytes.Equal(buf.Bytes(), want[:]) {
-			return fmt.Errorf("listed sector %v leaf %d reads back different bytes", root, l)
+			return fmt.Errorf("listed sector %v leaf %d reads back different bytes than were stored", root, l)
 		}
 		cost := x.Prices.RPCReadSectorCost(proto4.LeafSize).RenterCost()
 		x.Bal[0] = x.Bal[0].Sub(cost)
@@ -375,6 +417,9 @@ func (x *c09) step(op C09Op) error {
 		return x.appendClient(m, op.Roots)
 	case "free":
 		return x.freeClient(m, resolveIdx(op.Idx, op.OOB, len(m.Roots)))
+	case "write":
+		// an honest upload (scripted renter, nothing withheld)
+		return x.fault(m, Fault{Kind: "write"}, op)
 	case "renew", "refresh-full", "refresh-partial":
 		// an honest renewal through the scripted renter (no abort, no wrong
 		// signature); the old contract stays in the snapshot, so its roots are
@@ -441,7 +486,8 @@ func (x *c09) stale(m *mcontract, op C09Op) error {
 	case "append":
 		var roots []types.Hash256
 		for _, k := range op.Roots {
-			roots = append(roots, rootOf(k))
+			r, _ := x.rootFor(k)
+			roots = append(roots, r)
 		}
 		if len(roots) == 0 {
 			roots = []types.Hash256{rootOf(0)}
@@ -493,6 +539,23 @@ func runC09(c C09Case, cs *kit.CaseStats) error {
 				return e
 			}
 			return fmt.Errorf("step %d: %w", i, err)
+		}
+	}
+	if c.ReadAll {
+		for _, m := range x.C {
+			if m.Renewed || len(m.Roots) == 0 {
+				continue
+			}
+			var all []int
+			for i := range m.Roots {
+				all = append(all, i)
+			}
+			if err := x.readBack(m, all, c.Leaf); err != nil {
+				if stop, e := infra(cs, err); stop {
+					return e
+				}
+				return err
+			}
 		}
 	}
 	if len(c.ReadBack) > 0 {
@@ -564,7 +627,9 @@ func genC09(t *rapid.T) C09Case {
 	n := rapid.IntRange(1, maxOps).Draw(t, "nops")
 	for i := 0; i < n; i++ {
 		op := C09Op{C: rapid.IntRange(0, nc-1).Draw(t, "c"), Old: rapid.IntRange(0, 4).Draw(t, "old") == 0}
-		switch k := rapid.IntRange(0, 17).Draw(t, "op"); {
+		switch k := rapid.IntRange(0, 19).Draw(t, "op"); {
+		case k >= 18:
+			op.Op = "write"
 		case k >= 16:
 			op.Op = rapid.SampledFrom([]string{"renew", "refresh-full", "refresh-partial"}).Draw(t, "renewal")
 		case k == 15:
@@ -576,6 +641,8 @@ func genC09(t *rapid.T) C09Case {
 			for j := 0; j < na; j++ {
 				if rapid.IntRange(0, 5).Draw(t, "unknown") == 0 {
 					op.Roots = append(op.Roots, -1-rapid.IntRange(0, 3).Draw(t, "u"))
+				} else if rapid.IntRange(0, 3).Draw(t, "uploaded") == 0 {
+					op.Roots = append(op.Roots, 1000+rapid.IntRange(0, 5).Draw(t, "up"))
 				} else {
 					op.Roots = append(op.Roots, rapid.IntRange(0, rhpx.PoolSize-1).Draw(t, "root"))
 				}
@@ -592,7 +659,7 @@ func genC09(t *rapid.T) C09Case {
 			op.Len = rapid.IntRange(0, 7).Draw(t, "len")
 		default:
 			op.Op = "fault"
-			op.Fault = genFault(t, []string{"free", "free", "free", "append", "append", "replenish-accounts", "fund", "roots", "renew", "refresh-full", "refresh-partial"})
+			op.Fault = genFault(t, []string{"free", "free", "free", "append", "append", "replenish-accounts", "fund", "roots", "renew", "refresh-full", "refresh-partial", "write", "write"})
 			op.Idx = genIdx(t)
 			if len(op.Idx) == 0 {
 				op.Idx = []int{rapid.IntRange(0, 7).Draw(t, "idx1")}
@@ -601,6 +668,7 @@ func genC09(t *rapid.T) C09Case {
 		}
 		c.Ops = append(c.Ops, op)
 	}
+	c.ReadAll = rapid.IntRange(0, 2).Draw(t, "readall") == 0
 	nr := rapid.IntRange(0, 2).Draw(t, "nread")
 	if kit.Thorough() {
 		nr = rapid.IntRange(0, 6).Draw(t, "nread")
@@ -612,7 +680,7 @@ func genC09(t *rapid.T) C09Case {
 	return c
 }
 
-const c09Rule = "sequences of append (stored and unknown roots mixed), free (any positions, any order, duplicates, out of range), sector-roots ranges, honest renewals / refreshes (the renewed contract stays under observation) and faulty exchanges (renter stops/closes/stalls/truncates at a message boundary, or sends a wrong signature; renew / refresh whose finished set the pool rejects) on 1-2 contracts of 0..6 (thorough 0..10) sectors against the real rhp4.Server; after every attempt MetaRoot(host roots) = committed FileMerkleRoot, count x SectorSize = Filesize, failed/abandoned attempts leave the by-value snapshot (revision, roots, balances) unchanged, successes equal the list model and core's ReviseFor*. Non-trivial = a free of >= 2 positions where a replacement comes from a position that is itself freed, or an abort after the host's first response; distinct by hash of the case."
+const c09Rule = "sequences of uploads (RPCWriteSector, honest or abandoned at any point incl. after all data was sent), append (stored, uploaded and unknown roots mixed), free (any positions, any order, duplicates, out of range), sector-roots ranges, honest renewals / refreshes (the renewed contract stays under observation) and faulty exchanges (renter stops/closes/stalls/truncates at a message boundary, or sends a wrong signature; renew / refresh whose finished set the pool rejects) on 1-2 contracts of 0..6 (thorough 0..10) sectors against the real rhp4.Server; after every attempt MetaRoot(host roots) = committed FileMerkleRoot, count x SectorSize = Filesize, failed/abandoned attempts leave the by-value snapshot (revision, roots, balances) unchanged, successes equal the list model and core's ReviseFor*. Non-trivial = a free of >= 2 positions where a replacement comes from a position that is itself freed, or an abort after the host's first response; distinct by hash of the case."
 
 var c09Assumptions = []string{
 	"host = rhp4.Server over the repository's reference testutil.EphemeralContractor / EphemeralSectorStore on the all-v2 test network, reached through an in-memory buffered stream (net.Conn obligations only)",
